@@ -15,7 +15,7 @@ from .lean import run_driver_parallel
 SUITE = "S-trace"
 # classes whose agent handling is a recorded finding (hand-built agents): excluded from the provenance correspondence
 DISCIPLINE_EXEMPT = {"ImperialistCompetitiveOptimization"}
-VARIABLE_SIZE = {"BeeColonyOptimization", "ForestAlgorithmOptimization", "ImperialistCompetitiveOptimization"}
+VARIABLE_SIZE = {"BeeColonyOptimization", "ForestOptimizationAlgorithm", "ImperialistCompetitiveOptimization"}
 
 
 def job_key(job):
